@@ -85,7 +85,7 @@ func runC02C(e *Env, r *core.Run) {
 	}
 	r.Ev("cfg tasks=%d requests=%d", ntasks, total)
 	sim := e.Sim
-	sim.Begin(rt.Config{Draw: func(n int) int { return t.Draw(core.SS, n) }, EstYields: total * 150, MaxYields: uint64(total*400000 + 10000)})
+	sim.Begin(e.SimConfig(func(n int) int { return t.Draw(core.SS, n) }, total*150, uint64(total*400000+10000)))
 	logs := make([]*core.Log, ntasks)
 	for i := range logs {
 		logs[i] = r.NewLog(i)
